@@ -128,6 +128,16 @@ func (fr *Frame) execRangeNext(ins ssa.Instruction, st *State) *State {
 			fail("%s: range over %s is outside the subset", vc.posOf(x.Pos()), x.X.Type())
 		}
 		fr.vals[x] = fr.val(x.X)
+		// keys visited so far (string-keyed maps only): starts empty
+		if mt := x.X.Type().Underlying().(*types.Map); vc.specialSort(mt.Key()) == SString {
+			m := fr.val(x.X).T
+			mv, _, _, _ := vc.mapGet(st, mt, m)
+			if fr.rangeMap == nil {
+				fr.rangeMap = map[*ssa.Range]string{}
+			}
+			fr.rangeMap[x] = mv.S
+			vc.setGhost(st, "$rangevisited", T(visitedSort, "((as const %s) false)", visitedSort))
+		}
 		return st
 	case *ssa.Next:
 		rng, ok := x.Iter.(*ssa.Range)
@@ -142,6 +152,16 @@ func (fr *Frame) execRangeNext(ins ssa.Instruction, st *State) *State {
 		okT := vc.Fresh("next.ok", SBool)
 		k := vc.Fresh("next.key", ks)
 		st.Assume(Implies(okT, And(Not(Eq(m, IntLit(0))), Sel(dom, k, SBool))))
+		if ks == SString {
+			// every step visits a key not visited before; when the iteration
+			// ends (and the map was not changed meanwhile) every key was visited
+			vis := vc.ghost(st, "$rangevisited", visitedSort)
+			st.Assume(Implies(okT, Not(Sel(vis, k, SBool))))
+			if fr.rangeMap[rng] == mv.S {
+				st.Assume(Implies(And(Not(okT), Not(Eq(m, IntLit(0)))), T(SBool, "(forall ((k!v String)) (! (=> (select %s k!v) (select %s k!v)) :pattern ((select %s k!v)) :pattern ((select %s k!v))))", dom.S, vis.S, dom.S, vis.S)))
+			}
+			vc.setGhost(st, "$rangevisited", Ite(okT, Sto(vis, k, True), vis))
+		}
 		v := Sel(val, k, vs)
 		if wf := vc.wfValue(v, mt.Elem(), st); wf.S != "true" {
 			st.Assume(Implies(okT, wf))
@@ -152,6 +172,8 @@ func (fr *Frame) execRangeNext(ins ssa.Instruction, st *State) *State {
 	}
 	return st
 }
+
+const visitedSort = Sort("(Array String Bool)")
 
 func itoa(n int) string {
 	return IntLit(int64(n)).S
